@@ -163,6 +163,12 @@ def run (c : Case) : CaseOut := Id.run do
           if implObs != [outLine id wh s] && spec == "ok" then
             spec := "fail:row-not-enriched-from-the-table-state-at-processing-time"
       | _, _ => obs := obs ++ [[["bad-op"]]]
+    | ["conc", k] =>
+      -- free-running search: reads concurrent with upserts 1…k of one key are monotone, the read after the
+      -- updater returned sees k (sequential consistency of the op list, whatever the interleaving)
+      let want := [["mono", "t"], ["final", k]]
+      obs := obs ++ [want]
+      if implObs != want && spec == "ok" then spec := "fail:concurrent-reads-not-monotone-or-final-write-unseen"
     | ["flush"] =>
       obs := obs ++ [aggLines n aggRowsM]
       match implObs.mapM parseResult with
